@@ -9,9 +9,9 @@ import vlib  # noqa: E402
 
 
 def families():
-    import fam_ring, fam_inbox, fam_actor, fam_wire, fam_events, fam_reqresp
+    import fam_ring, fam_inbox, fam_actor, fam_wire, fam_events, fam_reqresp, fam_cluster
     table = {}
-    for mod in (fam_ring, fam_inbox, fam_actor, fam_wire, fam_events, fam_reqresp):
+    for mod in (fam_ring, fam_inbox, fam_actor, fam_wire, fam_events, fam_reqresp, fam_cluster):
         table.update(mod.CHECKS)
     return table
 
